@@ -29,13 +29,10 @@ fn _get_std_fds(redirects: &[Redirection]) -> (Option<RawFd>, Option<RawFd>) {
             let mut _fd_candidate = None;
 
             if item.2 == "&2" {
-                let (_fd_out, _fd_err) = _get_std_fds(&redirects[i+1..]);
-                // only the stderr of the look-ahead is needed here
-                if let Some(fd) = _fd_out {
-                    unsafe { libc::close(fd); }
-                }
-                if let Some(fd) = _fd_err {
-                    _fd_candidate = Some(fd);
+                // duplicate what stderr refers to at this point
+                // (redirections are applied left to right)
+                if let Some(fd) = fd_err {
+                    _fd_candidate = unsafe { Some(libc::dup(fd)) };
                 } else {
                     _fd_candidate = unsafe { Some(libc::dup(2)) };
                 }
@@ -60,8 +57,11 @@ fn _get_std_fds(redirects: &[Redirection]) -> (Option<RawFd>, Option<RawFd>) {
             let mut _fd_candidate = None;
 
             if item.2 == "&1" {
+                // duplicate what stdout refers to at this point
                 if let Some(fd) = fd_out {
                     _fd_candidate = unsafe { Some(libc::dup(fd)) };
+                } else {
+                    _fd_candidate = unsafe { Some(libc::dup(1)) };
                 }
             } else {  // 2>foo.log
                 let append = item.1 == ">>";
